@@ -347,10 +347,13 @@ func runC13(c *report.Ctx) {
 	valid := fn(c, pkgKeystore, "", "IsMnemonicValid")
 	cmpBS := fn(c, pkgKeystore, "", "compareByteSlices")
 	bigCmp := p.Fn("math/big", "Int", "Cmp")
+	var successAlt func(b *ssa.BasicBlock) bool // another way the gate can hold at a success return
 	successGuard := func(f *ssa.Function, name string, pred func(an.Atom) bool) {
 		if f == nil {
 			return
 		}
+		alt := successAlt
+		successAlt = nil
 		okAll, any := true, false
 		var pos string
 		for _, b := range f.Blocks {
@@ -363,7 +366,7 @@ func runC13(c *report.Ctx) {
 			}
 			any = true
 			pos = posOf(c, r)
-			if !an.AnyAtom(p.Guards(b), pred) {
+			if !an.AnyAtom(p.Guards(b), pred) && !(alt != nil && alt(b)) {
 				okAll = false
 			}
 		}
@@ -395,23 +398,18 @@ func runC13(c *report.Ctx) {
 			return ok && k.Value != nil && k.Value.ExactString() == "0"
 		})
 	}
-	if m2b != nil && valid != nil && cmpBS != nil {
-		successGuard(m2b, "IsMnemonicValid", func(a an.Atom) bool { return an.BoolCall(a, valid, "", true) })
-		successGuard(m2b, "checksum comparison", func(a an.Atom) bool { return an.BoolCall(a, cmpBS, "", true) })
-	}
-	nsec := fn(c, pkgKeystore, "", "NewSeedWithErrorChecking")
-	mustPass(c, nsec, an.Set(m2b), "MnemonicToByteArray")
 	// word lookups: found flag tested, or dominated by IsMnemonicValid
 	getWI := fn(c, pkgKeystore, "", "GetWordIndex")
 	wordMapG, _ := p.SSAPkgs[pkgKeystore].Members["wordMap"].(*ssa.Global)
 	if wordMapG == nil {
 		c.Lost("keystore.wordMap")
 	}
-	for _, f := range []*ssa.Function{efm, m2b, valid} {
-		if f == nil || wordMapG == nil {
-			continue
-		}
-		k := 0
+	type lookupSite struct {
+		in     ssa.Instruction
+		tested bool // the found flag is branched on and "not found" reaches only rejection
+	}
+	lookupsOf := func(f *ssa.Function) []lookupSite {
+		var out []lookupSite
 		an.Instrs(f, func(in ssa.Instruction) {
 			var okVal ssa.Value
 			isLookup := false
@@ -440,13 +438,7 @@ func runC13(c *report.Ctx) {
 			if !isLookup {
 				return
 			}
-			k++
-			key := siteKey(f, "word-lookup", k)
-			if valid != nil && an.AnyAtom(p.GuardsOf(in), func(a an.Atom) bool { return an.BoolCall(a, valid, "", true) }) {
-				c.OK(key, "after IsMnemonicValid accepted every word", posOf(c, in))
-				return
-			}
-			// the found flag must be branched on, and its false edge must not reach a success return / next iteration
+			// the found flag must be branched on, and its false edge must not reach a success return
 			tested := false
 			if okVal != nil {
 				for _, r := range *okVal.Referrers() {
@@ -460,26 +452,88 @@ func runC13(c *report.Ctx) {
 					if a.Op == token.ILLEGAL && !a.Truth {
 						notFound = ifi.Block().Succs[0]
 					}
-					hdr := loopHeaderOf(in.Block())
-					s := &an.Search{P: p, Fn: f, GoalReturn: func(r *ssa.Return, pred *ssa.BasicBlock) bool {
+					// (going round the loop again is not acceptance in itself: the search carries the flags set on the
+					// way — `if !found { allKnown = false }` — and judges the returns it reaches with them)
+					var s *an.Search
+					s = &an.Search{P: p, Fn: f, GoalReturn: func(r *ssa.Return, pred *ssa.BasicBlock) bool {
 						if res := f.Signature.Results(); res.Len() == 1 {
 							// bool result: returning true is acceptance
-							k, ok := an.RetOperand(r, 0).(*ssa.Const)
+							rv := an.RetOperand(r, 0)
+							if v, known := s.Flag(rv); known {
+								return v
+							}
+							k, ok := rv.(*ssa.Const)
 							return !(ok && k.Value != nil && !constant.BoolVal(k.Value))
 						}
 						return p.ClassifyReturn(r, pred) != an.RetError
-					}, GoalBlock: func(b, pred *ssa.BasicBlock) bool { return hdr != nil && b == hdr }}
+					}}
 					if w := s.Run(notFound, 0, ifi.Block()); w == nil {
 						tested = true
 					}
 				}
 			}
-			if tested {
+			out = append(out, lookupSite{in, tested})
+		})
+		return out
+	}
+	// validatedBefore: b is reached only after a loop of f that looked every word up and rejected the unknown ones
+	// (IsMnemonicValid's work done in place — the shape its inlined body has)
+	validatedBefore := func(f *ssa.Function, sites []lookupSite, b *ssa.BasicBlock) bool {
+		for _, ls := range sites {
+			if !ls.tested {
+				continue
+			}
+			hdr := loopHeaderOf(ls.in.Block())
+			if hdr == nil || b == ls.in.Block() {
+				continue
+			}
+			// every feasible way into b goes through the loop (the search knows the flags a merged return sets)
+			s := &an.Search{P: p, Fn: f, Cut: func(in ssa.Instruction) bool { return in.Block() == hdr },
+				GoalBlock: func(x, _ *ssa.BasicBlock) bool { return x == b }}
+			if b == f.Blocks[0] || s.Run(f.Blocks[0], 0, nil) != nil {
+				continue
+			}
+			inLoop := false
+			for _, pr := range hdr.Preds {
+				if hdr.Dominates(pr) && loopContains(hdr, pr, b) {
+					inLoop = true
+				}
+			}
+			if !inLoop {
+				return true
+			}
+		}
+		return false
+	}
+	if m2b != nil && valid != nil && cmpBS != nil {
+		m2bSites := lookupsOf(m2b)
+		successAlt = func(b *ssa.BasicBlock) bool {
+			return hasRangeTest(m2b, 3, 12, 24) && validatedBefore(m2b, m2bSites, b)
+		}
+		successGuard(m2b, "IsMnemonicValid", func(a an.Atom) bool { return an.BoolCall(a, valid, "", true) })
+		successGuard(m2b, "checksum comparison", func(a an.Atom) bool { return an.BoolCall(a, cmpBS, "", true) })
+	}
+	nsec := fn(c, pkgKeystore, "", "NewSeedWithErrorChecking")
+	mustPass(c, nsec, an.Set(m2b), "MnemonicToByteArray")
+	for _, f := range []*ssa.Function{efm, m2b, valid} {
+		if f == nil || wordMapG == nil {
+			continue
+		}
+		sites := lookupsOf(f)
+		for k, ls := range sites {
+			in := ls.in
+			key := siteKey(f, "word-lookup", k+1)
+			switch {
+			case valid != nil && an.AnyAtom(p.GuardsOf(in), func(a an.Atom) bool { return an.BoolCall(a, valid, "", true) }):
+				c.OK(key, "after IsMnemonicValid accepted every word", posOf(c, in))
+			case ls.tested:
 				c.OK(key, "found flag tested; a word outside the list reaches only rejection", posOf(c, in))
-			} else {
+			case validatedBefore(f, sites, in.Block()):
+				c.OK(key, "after a loop of the function itself looked every word up and rejected the unknown ones", posOf(c, in))
+			default:
 				c.Fail(key, "a word is looked up without acting on the found flag: a word outside the list is decoded as index 0 and the sequence can be accepted", posOf(c, in))
 			}
-		})
+		}
 	}
 	ruleSharedBigIntsImmutable(c, []string{pkgKeystore}, 3)
 	ruleValidatedTokensAreDecodedTokens(c)
@@ -574,12 +628,8 @@ func bigGlobals(p *an.Prog, pkg string) (map[string]int64, map[string]map[int64]
 	return ints, maps
 }
 
-// checkRangeTest: f rejects when x%mod != 0 || x < lo || x > hi.
-func checkRangeTest(c *report.Ctx, f *ssa.Function, mod, lo, hi int64, what string) {
-	if f == nil {
-		return
-	}
-	p := c.P
+// hasRangeTest: f (or a helper of its package it calls) tests x%mod != 0 || x < lo || x > hi, in one of its forms.
+func hasRangeTest(f *ssa.Function, mod, lo, hi int64) bool {
 	var hasMod, hasLo, hasHi bool
 	// the test may live in a helper of the same package that f calls (depth 1)
 	scan := []*ssa.Function{f}
@@ -590,6 +640,7 @@ func checkRangeTest(c *report.Ctx, f *ssa.Function, mod, lo, hi int64, what stri
 			}
 		}
 	})
+	eq := map[ssa.Value]map[int64]bool{} // operand → constants it is compared equal with (a switch over the legal values)
 	for _, sf := range scan {
 		an.Instrs(sf, func(in ssa.Instruction) {
 			b, ok := in.(*ssa.BinOp)
@@ -598,31 +649,73 @@ func checkRangeTest(c *report.Ctx, f *ssa.Function, mod, lo, hi int64, what stri
 			}
 			k, isK := constInt(b.Y)
 			switch b.Op {
+			case token.EQL:
+				if isK {
+					if eq[b.X] == nil {
+						eq[b.X] = map[int64]bool{}
+					}
+					eq[b.X][k] = true
+				}
 			case token.REM:
 				if isK && k == mod {
 					hasMod = true
 				}
-			case token.LSS:
+			case token.LSS: // x < lo rejects; x < hi+1 accepts
 				if isK && k == lo {
 					hasLo = true
 				}
-			case token.GTR:
+				if isK && k == hi+1 {
+					hasHi = true
+				}
+			case token.GTR: // x > hi rejects; x > lo-1 accepts
 				if isK && k == hi {
 					hasHi = true
+				}
+				if isK && k == lo-1 {
+					hasLo = true
 				}
 			case token.LEQ:
 				if isK && k == lo-1 {
 					hasLo = true
 				}
+				if isK && k == hi {
+					hasHi = true
+				}
 			case token.GEQ:
 				if isK && k == hi+1 {
 					hasHi = true
 				}
+				if isK && k == lo {
+					hasLo = true
+				}
 			}
 		})
 	}
+	for _, ks := range eq {
+		// exactly the legal values, enumerated
+		all := true
+		n := 0
+		for v := lo; v <= hi; v += mod {
+			n++
+			if !ks[v] {
+				all = false
+			}
+		}
+		if all && len(ks) == n && lo%mod == 0 {
+			hasMod, hasLo, hasHi = true, true, true
+		}
+	}
+	return hasMod && hasLo && hasHi
+}
+
+// checkRangeTest: f rejects when x%mod != 0 || x < lo || x > hi.
+func checkRangeTest(c *report.Ctx, f *ssa.Function, mod, lo, hi int64, what string) {
+	if f == nil {
+		return
+	}
+	p := c.P
 	key := sk(f) + ":range-test"
-	if hasMod && hasLo && hasHi {
+	if hasRangeTest(f, mod, lo, hi) {
 		c.OK(key, fmt.Sprintf("%s: multiple of %d within [%d,%d]", what, mod, lo, hi), p.Pos(f.Pos()))
 	} else {
 		c.Fail(key, fmt.Sprintf("%s test is not {%%%d, <%d, >%d}", what, mod, lo, hi), p.Pos(f.Pos()))
